@@ -407,6 +407,54 @@ def r4_default_residual(ctx):
     fitclauses.clause_residual_shape(ctx)
 
 
+
+def r5_models_pure(ctx):
+    """inputs are not modified: no augmented assignment, subscript store,
+    in-place method or `out=` on a parameter of a shipped model function"""
+    from ..astutil import kwarg
+    n = 0
+    for mod in facts.model_modules(ctx.repo):
+        f = facts.model_func(mod)
+        ps = set(func_params(f))
+        n += 1
+        bad = []
+        for x in ast.walk(f):
+            if isinstance(x, ast.AugAssign):
+                b = x.target
+                while isinstance(b, (ast.Subscript, ast.Attribute)):
+                    b = b.value
+                if isinstance(b, ast.Name) and b.id in ps and (
+                        isinstance(x.target, ast.Subscript)
+                        or b.id == func_params(f)[0]):
+                    bad.append((x, norm(x)))
+            elif isinstance(x, ast.Assign):
+                for t in x.targets:
+                    if isinstance(t, ast.Subscript):
+                        b = t.value
+                        while isinstance(b, (ast.Subscript, ast.Attribute)):
+                            b = b.value
+                        if isinstance(b, ast.Name) and b.id in ps and not any(
+                                isinstance(y, ast.Assign) and any(
+                                    isinstance(tt, ast.Name) and tt.id == b.id
+                                    for tt in y.targets)
+                                for y in ast.walk(f)):
+                            bad.append((x, norm(x)))
+            elif isinstance(x, ast.Call):
+                o = kwarg(x, "out")
+                if isinstance(o, ast.Name) and o.id in ps:
+                    bad.append((x, norm(x)))
+        if not bad:
+            ctx.ok(f, f"{mod.name}.{f.name} writes to none of its arguments")
+        for x, txt in bad:
+            ctx.fail(x, f"{f.name} leaves its arguments alone",
+                     f"model function {f.name} edits the array it is handed "
+                     f"in place (`{txt[:60]}`): the caller's abscissa is "
+                     "changed (bitwise after the round trip, or for good when "
+                     "the evaluation raises in between; read-only input "
+                     "raises)")
+    ctx.floor("shipped model functions", n, 5)
+
+
 RULES = [
     ("C13-R1", "direction wrapper: one flag, symmetric reversal, one call",
      r1_direction_wrapper),
@@ -417,4 +465,6 @@ RULES = [
      r3_shipped_models),
     ("C13-R4", "default residual = (data - model) x weights via the "
      "direction-agnostic model", r4_default_residual),
+    ("C13-R5", 'shipped model functions leave the arrays they are handed alone',
+     r5_models_pure),
 ]
